@@ -33,13 +33,12 @@ namespace igris
 
         unbounded_array() : m_data(nullptr), m_size(0) {}
 
-        unbounded_array(size_t sz)
-            : alloc{}, m_data(alloc.allocate(sz)), m_size(sz)
+        unbounded_array(size_t sz) : m_data(nullptr), m_size(0)
         {
-            for (size_t i = 0; i < sz; ++i)
-            {
-                new (m_data + i) T();
-            }
+            // create_buffer() cleans up after itself when T() throws (the
+            // destructor of an object whose constructor did not finish is
+            // not run: the elements built so far and the block leaked)
+            create_buffer(sz);
         }
 
         unbounded_array(const T *data, size_t sz) : unbounded_array(sz)
